@@ -197,6 +197,9 @@ def judge(ctx, case, run, prefix='C03'):
 def execute(ctx, case):
   run = writersim.run_case(case)
   if run.aborted == 'step-limit':
+    if run.recv_exc is not None:
+      ctx.fail('C03:receiving-side-raised', 'the receiving thread died with %r and the writer never stopped' % (run.recv_exc,), case)
+      return
     ctx.count('inconclusive: step limit')
     return
   acc = judge(ctx, case, run)
